@@ -288,9 +288,12 @@ func run(c *core.Ctx) {
 		"well-formed lines with every terminator + every truncation / single-byte deletion / duplication of the first one + suffixes, 48 substitutions and 48 insertions " +
 		"from a delimiter-heavy alphabet, glued/repeated chunks, 32 random byte strings and (every 8th case) a fixed hostile corpus; every input goes to every parameter set " +
 		"and both Decode and DecodeToJson through a canary-guarded sub-slice; one evaluation = one decoder call; a fingerprint = family|params/entry|how the input was " +
-		"derived (mutation kind + class of the touched byte, or shape of the valid line)|outcome (ok / error class / panic / cut class)")
+		"derived (mutation kind + class of the touched byte, or shape of the valid line)|outcome (ok / error class / panic / cut class); results-stay-valid: every well-formed line and every 4th " +
+		"other input is decoded once more per entry point with its own buffer and root, the last 5 results per entry stay alive and are re-encoded after every later decode; " +
+		"per case 4 goroutines share the decoder instances over up to 40 of these lines")
 	c.Assume("the reference recognisers (regular expressions / small parsers written from decoder/readme.md, RFC 3164, RFC 5424, RFC 4180, RFC 8259, the CRI log format and the protobuf wire/JSON specs) define 'well-formed'; lines they do not recognise are only required to be handled totally")
 	c.Assume("a recovered panic in a directly called decoder function is a process crash in production (Pipeline.In has no recover); the first witness of every panic signature is confirmed by a child that does not recover")
+	c.Assume("a row returned by Decode may alias the caller's line (the caller keeps that buffer untouched while it uses the row); an event filled by DecodeToJson must not (the line buffer is overwritten right after the call)")
 	c.Assume("invalid_line_mode=fatal exiting the process is documented behaviour and is never provoked")
 	c.Assume("watchdog expiries are inconclusive, never violations")
 
@@ -375,6 +378,11 @@ func run(c *core.Ctx) {
 		for _, k := range []string{"ok", "err"} {
 			if c.Counter(fam+"."+k) == 0 {
 				c.Fatal("family %s: outcome %q never observed", fam, k)
+			}
+		}
+		for _, k := range []string{"retained_results", "retained_results_still_equal_when_dropped", "concurrent_decodes"} {
+			if c.Counter(fam+"."+k) == 0 {
+				c.Fatal("family %s: results-stay-valid clause observed nothing (%s)", fam, k)
 			}
 		}
 		if fam == "json" {
